@@ -206,6 +206,18 @@ func cmdVerify(args []string) {
 					}
 				}
 			}
+			if os.Getenv("GOVC_LIST") != "" {
+				for _, n := range e.oblOrder {
+					o := e.obls[n]
+					triv := 0
+					for _, c := range o.Cases {
+						if c.Goal == "true" {
+							triv++
+						}
+					}
+					fmt.Printf("    obl [%s] %s cases=%d trivially-true=%d (%s)\n", o.Status, o.Name, len(o.Cases), triv, o.Backend)
+				}
+			}
 			for _, n := range e.oblOrder {
 				if o := e.obls[n]; o.Secs > 1 && os.Getenv("GOVC_TIMES") != "" {
 					fmt.Printf("    slow %.1fs %s %s\n", o.Secs, o.Backend, o.Name)
